@@ -121,10 +121,14 @@ RT_TECH = ("property-based testing: Hypothesis-generated fiber programs x genera
 def small_ops(draw, n_max):
     ops = []
     for _ in range(draw(ints(0, n_max))):
-        if draw(st.booleans()):
+        k = draw(ints(0, 8))
+        if k < 4:
             ops.append(op("yield", draw(ints(1, 2))))
-        else:
+        elif k < 8:
             ops.append(op("work", draw(ints(1, 5))))
+        else:
+            # a private short-lived mutex / semaphore / rwlock / barrier / condition / spinlock: init, use, destroy
+            ops.append(op("lifecycle", draw(ints(0, 5))))
     return ops
 
 
@@ -581,7 +585,7 @@ def mixed_case(draw, tier, storm=False):
     cfg = {"nmutex": 2, "nsem": 1, "sem_init0": draw(ints(1, 2)), "nrw": 1, "nspin": 1, "sleepers": 1, "ticks_per_quiescence": draw(ints(1, 3))}
     fibers = [[] for _ in range(nf)]
     kinds_used = set()
-    self_contained = ["lock", "trylock", "swaitpost", "strywait", "rd", "wr", "tryrd", "trywr", "slock", "strylock", "yield", "work", "sleep"]
+    self_contained = ["lock", "trylock", "swaitpost", "strywait", "rd", "wr", "tryrd", "trywr", "slock", "strylock", "yield", "work", "sleep", "lifecycle"]
     if storm:
         self_contained = ["yield", "yield", "work", "lock", "swaitpost"]
     for f in fibers:
@@ -598,6 +602,8 @@ def mixed_case(draw, tier, storm=False):
                 f.append(op("yield", draw(ints(1, 3))))
             elif k == "work":
                 f.append(op("work", draw(ints(1, 6))))
+            elif k == "lifecycle":
+                f.append(op("lifecycle", draw(ints(0, 5))))
             else:
                 f.append(op("sleep", draw(ints(0, 2)), 0, draw(st.sampled_from([0, 1000, 3000, 3000, 7000]))))
     extra = []
@@ -1212,7 +1218,8 @@ for _p, _h in (("C02", "deque"), ("C13", "mpmc"), ("C14", "hazard"), ("C15", "qu
     SPECS[_p].technique += "; plus a coverage-guided libFuzzer campaign over the same harness (bytes -> case + schedule), candidates re-executed by the deterministic runner"
 
 # classes added after the seeding rounds (DESIGN 8.6); appended to the rule text that goes into the evidence files
-COMMON_CLASSES = (" One case in five initialises the objects under test in memory that is not zero (byte patterns), one in six asks fiber_create for another stack size; "
+COMMON_CLASSES = (" Fibers of the runtime harnesses now and then run a private life cycle (init, uncontended use with the try variants checked, destroy) of a mutex, semaphore, rwlock, "
+                  "barrier, condition or spinlock on their own stack. One case in five initialises the objects under test in memory that is not zero (byte patterns), one in six asks fiber_create for another stack size; "
                   "malloc memory holds a byte pattern or the addresses of recently allocated blocks, depending on the schedule seed.")
 EXTRA_RULE = {
     "C01": "The descriptor gadget really transfers bytes (op iowr); bursts of up to 40 000 runnable fibers in the storms; ghost: a fiber is only ever pushed onto the run queue of the "
